@@ -37,6 +37,23 @@ def make_context(case):
                          attribute_names=[aname(k) for k in case['anames']], backend=case['backend'])
 
 
+def _container(names, kind):
+    # the by-name operators take any iterable of names (the signature says Iterable[str]): the
+    # same listing handed over as a tuple or as a ONE-SHOT iterable must give the same answer
+    if kind == 'tuple':
+        return tuple(names)
+    if kind == 'gen':
+        return (n for n in names)
+    if kind == 'iter':
+        return iter(names)
+    if kind == 'map':
+        return map(str, names)
+    return names
+
+
+CONTAINERS = ['list', 'list', 'tuple', 'gen', 'iter', 'map']
+
+
 def run_impl(case):
     def go():
         ren = case.get('rename')
@@ -89,11 +106,13 @@ def run_impl(case):
             return cv(K.extension_monotone_i(list(arg), None if base is None else list(base)))
         if op == 3:
             return cv(K.intention_monotone_i(list(arg), None if base is None else list(base)))
+        cont = case.get('cont') or ['list', 'list']
         if op in (4, 6):
-            res = K.extension([aname(k) for k in arg], None if base is None else [oname(k) for k in base],
+            res = K.extension(_container([aname(k) for k in arg], cont[0]),
+                              None if base is None else _container([oname(k) for k in base], cont[1]),
                               is_monotone=(op == 6))
             return [int(s[1:]) for s in res]
-        res = K.intention([oname(k) for k in arg], is_monotone=(op == 7))
+        res = K.intention(_container([oname(k) for k in arg], cont[0]), is_monotone=(op == 7))
         return [int(s[1:]) for s in res]
     r = guarded(go)
     if r[0] == 'err' and r[1] == 'KeyError':
@@ -132,7 +151,8 @@ def stats(case):
     return {'shape': '%dx%d' % (len(t), len(t[0])), 'op': case['op'], 'backend': case['backend'],
             'base': 'none' if case['base'] is None else ('empty' if not case['base'] else 'given'),
             'arg': 'empty' if not case['arg'] else 'nonempty', 'kind': case.get('kind', ''),
-            'history': ('rename' if case.get('rename') else 'fresh') + ('+queries' if case.get('pre') else '')}
+            'history': ('rename' if case.get('rename') else 'fresh') + ('+queries' if case.get('pre') else ''),
+            'containers': '/'.join(case.get('cont') or ['list', 'list'])}
 
 
 def _mk(backend, t, op, arg, base, onames=None, anames=None, kind=''):
@@ -175,6 +195,19 @@ def random_case(rng, max_dim):
         if base:
             base = base + [rng.choice(base)]
             dup = True
+    if op in (2, 3, 6, 7) and rng.random() < 0.2:
+        # monotone variants: a listing with repeats denotes the same set as long as its length does
+        # not hit the code's "everything selected" shortcut (theorem C01_intention_mono_listing_correct)
+        if arg:
+            arg2 = arg + [rng.choice(arg) for _ in range(rng.randint(1, 2))]
+            if len(arg2) != n_arg:
+                arg, dup = arg2, True
+        if base and op != 7 and rng.random() < 0.5:
+            base = base + [rng.choice(base)]
+            dup = True
+    cont = None
+    if op >= 4 and rng.random() < 0.4:
+        cont = [rng.choice(CONTAINERS), rng.choice(CONTAINERS)]
     if op >= 4:
         arg_names = [(onames if on_rows else anames)[i] for i in arg]
         base_names = None if base is None else [(anames if on_rows else onames)[i] for i in base]
@@ -185,6 +218,8 @@ def random_case(rng, max_dim):
             base_names.insert(rng.randint(0, len(base_names)), UNKNOWN + rng.randrange(5))
         arg, base = arg_names, base_names
     c = _mk(b, t, op, arg, base, onames, anames, kind + ('+dup' if dup else ''))
+    if cont:
+        c['cont'] = cont
     if rng.random() < 0.45:
         # query history on one object: same operator family, the same or a sub-/super-set argument,
         # other base sets (a cache keyed too coarsely answers the later question from the earlier one)
